@@ -55,6 +55,7 @@ type Opts struct {
 
 	DGs         []int // data groups stored on the chip (1 is always added)
 	Unsupported []int // further numbers listed in the SOD and stored, but not supported by the reader (3, 4, 5, ...)
+	EFDIR       bool  // the chip answers SELECT 2F00 inside the LDS application with an EF.DIR
 	DG2Size     int   // exact size of DG2 (0: small random)
 	DG7Size     int
 
@@ -327,6 +328,10 @@ func Build(r *mrand.Rand, o Opts) *Perso {
 		s2 := p.PKI.SignerSpec(o.Digest, false)
 		s2.EContentType, s2.EContent, s2.SigningTime = issuer.OIDSecurityObject, cs, &st
 		p.MF[chipsim.FidCardSecurity] = issuer.BuildSignedData(r, s2)
+	}
+	if o.EFDIR {
+		// one application template: 61 { 4F aid, 50 label }
+		p.LDS[chipsim.FidDIR] = ldsgen.TLV(0x61, ldsgen.TLV(0x4F, chipsim.LDS1AID), ldsgen.TLV(0x50, []byte("eMRTD")))
 	}
 	com, _ := ldsgen.NewCOM(nums, "", "")
 	p.LDS[chipsim.FidCOM] = com
